@@ -9,3 +9,5 @@ pub mod generic;
 pub mod attr;
 #[cfg(feature = "g_exec")]
 pub mod exec;
+#[cfg(feature = "g_alias")]
+pub mod alias;
